@@ -45,4 +45,18 @@ func init() {
 			"bridge and dispute mint/burn amounts are decided under C14 and C13",
 		},
 	})
+	reg(&PropDef{
+		ID:    "C18",
+		Title: "Staking transactions cannot move bonded stake more than 5% per 12-hour period",
+		Funcs: fcNP("x/reporter/ante.TrackStakeChangesDecorator.AnteHandle", "x/reporter/keeper.Keeper.TrackStakeChange"),
+		Sweeps: []string{"ante_chain"},
+		Assumptions: []string{
+			"message amounts are non-negative and messages are non-nil (ValidateBasic, which runs later in the same ante chain, rejects anything else, so such a transaction never passes admission)",
+			"total bonded tokens as returned by the staking keeper (ghost staking.bonded) is not changed by the decorator itself; the rest of the ante chain (next) is havocked",
+			"a transaction without stake-adding (resp. undelegate) amount is not constrained by the increase (resp. decrease) bound",
+		},
+		NotDecided: []string{
+			"sequences of transactions within one period: each transaction is checked against bonded stake at its own admission time (the statement's per-transaction reading); no cross-transaction accumulator exists in the code",
+		},
+	})
 }
